@@ -22,16 +22,16 @@ EXHAUSTIVE = "all weak orders (3/13/75) of base games with k<=4 teams are enumer
 
 
 def floors(tier):
-    return {"ref/mu": 20000 if tier == "quick" else 300000, "ref/sigma": 20000 if tier == "quick" else 300000}
+    return {"ref/mu": 20000 if tier == "quick" else 1200000, "ref/sigma": 20000 if tier == "quick" else 1200000}
 
 
 def generate(ctx):
-    n = ctx.budget(12000, 200000)
+    n = ctx.budget(12000, 800000)
     for _ in range(n):
         case, meta = gen.gen_case(ctx.rng)
         yield "game", dict(case=case, meta=meta)
     # exhaustive weak orders on base games (sharded by base game index)
-    nbase = 2 if ctx.tier == "quick" else 24
+    nbase = 2 if ctx.tier == "quick" else 80
     idx = 0
     for m in MODEL_NAMES:
         for b in range(nbase):
